@@ -644,11 +644,18 @@ class e2e_colr_to_svg_colr_glyph_refs:
 def _gen_palette(rng):
     fmt = rng.choice(["glyf_colr_1", "glyf_colr_0"])
     glyphs = e2e.gen_glyphset(rng, gradients=False, groups=False, reuse=False)
+    if fmt == "glyf_colr_0":
+        for g in glyphs:
+            for sh in e2e.all_shapes(g):
+                if getattr(sh.fill, "current", False):
+                    sh.opacity = 1.0  # known finding F14 (witness recorded on e2e_colrv0_picture)
     used = {}
     for g in glyphs:
         for sh in e2e.all_shapes(g):
             f = sh.fill
             if rng.random() < 0.5:
+                if getattr(f, "current", False):
+                    continue
                 f.alpha = 1.0
                 # COLRv0 keeps alpha in the CPAL entry: one index cannot serve one colour at
                 # two opacities there (that input is a conflict and is rightly rejected)
@@ -672,6 +679,9 @@ def _palette_problems(glyphs, result):
     for g in glyphs:
         for sh in e2e.all_shapes(g):
             f = sh.fill
+            if getattr(f, "current", False):
+                # the foreground colour is index 0xFFFF, never a palette entry (checked below)
+                continue
             a = 1.0 if v1 else f.alpha * sh.opacity
             seen.add((f.rgb, round(a * 255)))
             if f.index is not None:
